@@ -37,7 +37,7 @@ func (e *Exec) globalObj(g *ssa.Global) *Object {
 	e.objs++
 	name := g.Pkg.Pkg.Name() + "." + g.Name()
 	o := &Object{ID: e.objs, Pre: true, Addr: e.C.Sym("ga_"+smt.Sanitize(name), refSort), Typ: derefType(g.Type()), Name: name, Glob: g}
-	e.Axioms = append(e.Axioms, e.C.BVSlt(e.C.BVC(uint64(0), 64), o.Addr))
+	e.addAxioms(e.C.BVSlt(e.C.BVC(uint64(0), 64), o.Addr))
 	e.globals[g] = o
 	return o
 }
@@ -825,7 +825,7 @@ func (e *Exec) convert(st *State, x *ssa.Convert) Value {
 				st.mem[o] = &ArrV{Elem: el, N: -1, Read: func(i *smt.Term) Value {
 					return Scalar{T: c.App("str_at", smt.BV(8), s, i), Typ: el}
 				}}
-				e.Axioms = append(e.Axioms, c.BVSle(bv64(c, 0), ln), c.BVSle(ln, c.BVC(maxLen, 64)))
+				e.addAxioms(c.BVSle(bv64(c, 0), ln), c.BVSle(ln, c.BVC(maxLen, 64)))
 				return &SliceV{Elem: el, Len: ln, Cap: ln, Alts: []SliceAlt{{Cond: c.True(), Loc: &Loc{Obj: o}, Off: bv64(c, 0)}}}
 			}
 		}
